@@ -6,7 +6,7 @@ import (
 )
 
 var smallTokens = []string{"ALL", "IMM", "IMM01", "IMM02", "CTOR01", "ZZZ"}
-var smallQueryCodes = []string{"IMM01", "IMM02", "IMM03", "CTOR01", "CTOR02", "CTOR", "IMM", "ZZZ", "TONL01"}
+var smallQueryCodes = []string{"IMM01", "IMM02", "IMM03", "CTOR01", "CTOR02", "CTOR", "IMM", "ZZZ", "TONL01", "IMM99"}
 
 var wideTokens = []string{"ALL",
 	"IMM", "CTOR", "TONL", "PKGO", "IMPL",
@@ -16,7 +16,9 @@ var wideTokens = []string{"ALL",
 var wideQueryCodes = []string{
 	"IMM01", "IMM02", "IMM03", "IMM04", "CTOR01", "CTOR02", "CTOR03", "TONL01", "TONL02", "TONL03",
 	"PKGO01", "PKGO02", "PKGO03", "IMPL01", "IMPL02", "IMPL03",
-	"IMM", "CTOR", "TONL", "PKGO", "IMPL", "ZZZ", "ALL"}
+	"IMM", "CTOR", "TONL", "PKGO", "IMPL", "ZZZ", "ALL",
+	// not among the 16 documented codes: no category, whatever their spelling suggests
+	"IMM99", "CTOR1", "PKGO00", "IMPLX"}
 
 func Generate(t *core.Tape, opt core.RunOpt) *Case {
 	c := &Case{}
